@@ -259,6 +259,8 @@ type c20World struct {
 
 	abandoned bool
 
+	msOpen, msCheck, msReopen, msSubmit int64 // wall-clock cost accounting for notes (never used by an oracle)
+
 	lastRecomputeDropped int // groups the pool's last recompute dropped for a reason other than being committed
 	nBlocks, nInnerBlocks, nNontrivialBlocks, nDropped, nEvals int
 }
@@ -295,7 +297,7 @@ func c20DrawCfg(t *rapid.T, name string) config.Local {
 	cfg.MaxAcctLookback = uint64(rapid.IntRange(1, 8).Draw(t, name+".MaxAcctLookback"))
 	cfg.Archival = true
 	// the LRU caches (what "warm" means for account/resource/kv lookups) cost ~60 MB and >= 0.4 s per open
-	cfg.DisableLedgerLRUCache = rapid.IntRange(0, 2).Draw(t, name+".LRU") != 0
+	cfg.DisableLedgerLRUCache = rapid.IntRange(0, 3).Draw(t, name+".LRU") != 0
 	cfg.TxPoolSize = 64
 	cfg.VerifiedTranscationsCacheSize = 256
 	cfg.LedgerSynchronousMode = 0
@@ -357,6 +359,8 @@ func c20NewWorld(t *rapid.T, vk *vkCtx) *c20World {
 		w.cfgB.DisableLedgerLRUCache = true // at most one of the two pays for the LRU buffers
 	}
 	seq := c20Seq.Add(1)
+	t0 := time.Now()
+	defer func() { w.msOpen += time.Since(t0).Milliseconds() }()
 	w.A, err = ledger.OpenLedger(c20Logger(), filepath.Join(w.dir, fmt.Sprintf("a%d", seq)), false, w.genesis, w.cfgA)
 	if err != nil {
 		w.close()
@@ -525,6 +529,8 @@ type c20Eval struct {
 
 // check runs the whole oracle on one finished block; ledgers A and B are at blk.Round()-1. Returns A's validated block.
 func (w *c20World) check(t *rapid.T, ub *ledgercore.UnfinishedBlock, blk bookkeeping.Block, how string) *ledgercore.ValidatedBlock {
+	t0 := time.Now()
+	defer func() { w.msCheck += time.Since(t0).Milliseconds() }()
 	ctx := context.Background()
 	// 1. every node with the same state accepts it
 	vbB, err := w.B.Validate(ctx, blk, c20Wide)
@@ -564,7 +570,7 @@ func (w *c20World) check(t *rapid.T, ub *ledgercore.UnfinishedBlock, blk bookkee
 		}},
 	}
 	order := rapid.Permutation([]int{0, 1, 2, 3, 4}).Draw(t, "evalOrder")
-	n := rapid.IntRange(3, 5).Draw(t, "nEvals")
+	n := rapid.IntRange(3, 4).Draw(t, "nEvals")
 	for _, i := range order[:n] {
 		switch rapid.SampledFrom([]string{"none", "flush", "warm", "flush+warm"}).Draw(t, "perturb") {
 		case "flush":
@@ -963,6 +969,8 @@ func (w *c20World) setup(t *rapid.T) {
 }
 
 func (w *c20World) submit(t *rapid.T) {
+	t0 := time.Now()
+	defer func() { w.msSubmit += time.Since(t0).Milliseconds() }()
 	n := rapid.IntRange(2, 9).Draw(t, "nSubmit")
 	for i := 0; i < n; i++ {
 		var g c20Group
@@ -1034,6 +1042,8 @@ func (w *c20World) round(t *rapid.T) {
 	}
 	// node B restarts now and then: the next Validate on it starts from a cold process-like state
 	if rapid.IntRange(0, 4).Draw(t, "reopenB") == 0 {
+		t0 := time.Now()
+		defer func() { w.msReopen += time.Since(t0).Milliseconds() }()
 		w.B.WaitForCommit(w.B.Latest()) // a clean shutdown after the block queue has written the block
 		w.B.Close()
 		var err error
@@ -1054,7 +1064,7 @@ func (w *c20World) round(t *rapid.T) {
 func TestVerif_C20_AssembleValidate(t *testing.T) {
 	vk := vkBegin(t, "C20")
 	vk.Rule("two real ledgers with the same history (A: pool + Validate/AddValidatedBlock, B: AddBlock, other configuration, reopened now and then); " +
-		"per case 3-7 rounds of 2-9 remembered groups (pay, spend-most, close, lease, asset transfer, app calls: global/local/box writes, logs, inner " +
+		"per case 3-6 rounds of 2-9 remembered groups (pay, spend-most, close, lease, asset transfer, app calls: global/local/box writes, logs, inner " +
 		"pay / two inner pays / inner asset create / inner app call, shared-account local write, reject, err; groups of 1-3; LastValid 0-50 rounds ahead; " +
 		"resubmissions) and a block from AssembleBlock (pipeline), AssembleDevModeBlock or a foreign generating evaluator, finished with drawn " +
 		"seed/proposer/eligibility. Non-trivial = a pool-assembled block that contains an app call with inner transactions while the assembly " +
@@ -1074,7 +1084,7 @@ func TestVerif_C20_AssembleValidate(t *testing.T) {
 				}
 			}()
 			w.setup(rt)
-			rounds := rapid.IntRange(3, 7).Draw(rt, "rounds")
+			rounds := rapid.IntRange(3, 6).Draw(rt, "rounds")
 			for i := 0; i < rounds; i++ {
 				w.round(rt)
 			}
@@ -1087,6 +1097,10 @@ func TestVerif_C20_AssembleValidate(t *testing.T) {
 		vk.Add("blocks", int64(w.nBlocks))
 		vk.Add("evaluations-compared", int64(w.nEvals))
 		vk.Add("groups-dropped-at-assembly", int64(w.nDropped))
+		vk.Add("ms-open-ledgers", w.msOpen)
+		vk.Add("ms-oracle", w.msCheck)
+		vk.Add("ms-reopen-B", w.msReopen)
+		vk.Add("ms-remember", w.msSubmit)
 		if vk.WantSample(nt) {
 			h := w.hist
 			if len(h) > 40 {
